@@ -132,6 +132,8 @@ SEEDS = {
               ['./api/rpc/', './api/'], ['-run', 'TestC19_ExpiredTokenGrantsNothing', './api/rpc/']),
     "C19-4": ("C19/r2change2", "C19", [('demo/libs_authtoken/c19_authtoken_demo_test.go', 'libs/authtoken/c19_authtoken_demo_test.go'), ('demo/api_rpc/c19_perm_aliasing_demo_test.go', 'api/rpc/c19_perm_aliasing_demo_test.go')],
               ['./api/rpc/', './api/'], ['-run', 'TestC19_ReadTokenNeverReachesAdmin|TestC19_ExtractedPermissionsAreStable', './api/rpc/', './libs/authtoken/']),
+    "C10-3": ("C10/r2change1", "C10", [("demo/seed_c10_change1_test.go", "share/shwap/p2p/bitswap/seed_c10_change1_test.go")],
+              ["./share/shwap/", "./share/availability/light/"], ["-run", "TestSeedC10", "./share/shwap/p2p/bitswap/"]),
     "C06-1": ("C06/change1", "C06", [("demo/sample_unverified_demo_test.go", "share/shwap/p2p/bitswap/sample_unverified_demo_test.go")],
               ["./share/shwap/p2p/bitswap/"], ["-run", "TestDemo_GetSamples", "./share/shwap/p2p/bitswap/"]),
     "C06-2": ("C06/change2", "C06", [("demo/eds_retry_demo_test.go", "share/shwap/p2p/shrex/shrex_getter/eds_retry_demo_test.go")],
